@@ -5,6 +5,7 @@ package c03
 import (
 	"bytes"
 	"fmt"
+	"math"
 	"math/rand"
 	"strings"
 
@@ -385,7 +386,7 @@ func (u *universe) randSample(r *rand.Rand, ntypes int) uSample {
 	for i := 0; i < ntypes; i++ {
 		v := int64(r.Intn(5) - 2)
 		if u.big && r.Intn(2) == 0 {
-			v = []int64{1<<53 + 1, 1<<53 + 3, -(1<<53 + 1), 1<<60 + 1, 1<<56 + 7, 3}[r.Intn(6)]
+			v = []int64{1<<53 + 1, 1<<53 + 3, -(1<<53 + 1), 1<<60 + 1, 1<<56 + 7, 3, math.MaxInt64 - 5, 10, -10, math.MinInt64 + 7, math.MaxInt64 - 5}[r.Intn(11)]
 		}
 		s.values = append(s.values, v)
 	}
